@@ -26,6 +26,8 @@ REPLAY_PROFILES = ['dev', 'release']
 TIME_LIMIT = {'quick': 300, 'thorough': 1800}
 SCALES = ['Kelvin', 'temperature::CELSIUS', 'temperature::FAHRENHEIT']
 COMPANIONS = ['Meter', 'Second', 'units::WATT', 'length::FOOT', 'KiloGram']
+# a differently scaled unit of the same dimension (the companion is converted while the scale stays / changes)
+ALT = {'Meter': 'length::FOOT', 'Second': 'units::time::MINUTE', 'units::WATT': 'units::WATT', 'length::FOOT': 'Meter', 'KiloGram': 'mass::POUND'}
 
 def size_zero(u):
     if u == 'Kelvin': return Fraction(1), Fraction(0)
@@ -33,7 +35,7 @@ def size_zero(u):
 
 def jobs(tier, seed, report):
     report.bounds = {'magnitude': 'unbounded rational', 'pairs': 'all 9 ordered pairs incl. identity, prefixes {-3,0,3} symbolic on both sides',
-                     'chains': 'all sequences of length <= 4 over the three scales', 'powers': '-3..3 of a scale', 'compounds': 'scale (power symbolic) with one or two companions from ' + str(COMPANIONS) + ' (powers symbolic -2..2), target = same shape with another scale'}
+                     'chains': 'all sequences of length <= 4 over the three scales', 'powers': '-3..3 of a scale', 'compounds': 'scale (power symbolic, also power one) with one or two companions from ' + str(COMPANIONS) + ' (powers symbolic -2..2), target = same shape with another or the SAME scale, the companion kept or replaced by a differently scaled unit of its dimension (m/ft, s/min, kg/lb)'}
     report.outside = ['companions outside the listed five', 'addition/subtraction of temperatures (the property speaks about conversions)']
     report.assumptions = ['BigRational exact (SMT Real)', 'spec: K = C + 273.15, C = (F - 32) * 5/9']
     report.models_used = ['num', 'coll', 'core']
@@ -46,6 +48,11 @@ def jobs(tier, seed, report):
             if a == b == 0: continue
             js.append({'name': f'power-{a}-{b}', 'kind': 'power', 'a': a, 'b': b})
             for c in COMPANIONS: js.append({'name': f'comp-{a}-{b}-{c}', 'kind': 'compound', 'a': a, 'b': b, 'comp': [c]})
+    for a in range(3):
+        for b in range(3):
+            if a == b == 0: continue
+            for c in COMPANIONS:
+                if ALT[c] != c: js.append({'name': f'compalt-{a}-{b}-{c}', 'kind': 'compound', 'a': a, 'b': b, 'comp': [c], 'alt': True})
     pairs2 = list(itertools.combinations(COMPANIONS, 2))
     rnd = random.Random(seed); rnd.shuffle(pairs2)
     for cc in pairs2[:3 if tier == 'quick' else 10]:
@@ -129,7 +136,8 @@ def run_job(job, res, prefixes, budget, deadline):
             I.assume(z3.And(p >= -3, p <= 3, p != 0))
             if not comp: I.assume(p != 1)
             ce = ul.sym_entries(I, comp, 'c', -2, 2)
-            src = [(a, p, 0)] + ce; tgt = [(b, p, 0)] + ce
+            src = [(a, p, 0)] + ce
+            tgt = [(b, p, 0)] + ([(ul.resolve(I, ALT[U.key(u) if U.key(u) in ALT else u]) if False else ul.resolve(I, ALT[job['comp'][i]]), q, f) for i, (u, q, f) in enumerate(ce)] if job.get('alt') else ce)
             I.path_state['in'] = (x, src, tgt)
             return run_factor(I, tgt, src, x)
         def on_path(I, out, res):
